@@ -202,3 +202,88 @@ pub mod text {
     })
   }
 }
+
+/// Named points on the indexing path (`updater.rs`, `reorg.rs`). Each call is recorded in
+/// `TRACE` when tracing is on; when a point is armed (`arm(name, occurrence)`) its
+/// `occurrence`-th hit panics, simulating the death of the indexing process at that point
+/// (the harness then drops and reopens the index).
+pub mod points {
+  use std::sync::Mutex;
+
+  pub struct State {
+    pub trace: Option<Vec<(String, u32)>>,
+    pub armed: Option<(String, u64)>,
+    pub hits: std::collections::BTreeMap<String, u64>,
+  }
+
+  pub static STATE: Mutex<State> = Mutex::new(State {
+    trace: None,
+    armed: None,
+    hits: std::collections::BTreeMap::new(),
+  });
+
+  pub fn reset(trace: bool) {
+    let mut state = STATE.lock().unwrap_or_else(|e| e.into_inner());
+    state.trace = trace.then(Vec::new);
+    state.armed = None;
+    state.hits.clear();
+  }
+
+  pub fn arm(name: &str, occurrence: u64) {
+    let mut state = STATE.lock().unwrap_or_else(|e| e.into_inner());
+    state.armed = Some((name.to_string(), occurrence));
+    state.hits.clear();
+  }
+
+  pub fn take_trace() -> Vec<(String, u32)> {
+    let mut state = STATE.lock().unwrap_or_else(|e| e.into_inner());
+    state.trace.as_mut().map(std::mem::take).unwrap_or_default()
+  }
+
+  pub fn hits() -> std::collections::BTreeMap<String, u64> {
+    STATE.lock().unwrap_or_else(|e| e.into_inner()).hits.clone()
+  }
+
+  pub fn point(name: &str, height: u32) {
+    let fire = {
+      let mut state = STATE.lock().unwrap_or_else(|e| e.into_inner());
+      if let Some(trace) = state.trace.as_mut() {
+        trace.push((name.to_string(), height));
+      }
+      let n = {
+        let n = state.hits.entry(name.to_string()).or_insert(0);
+        *n += 1;
+        *n
+      };
+      match &state.armed {
+        Some((armed, occurrence)) if armed == name && *occurrence == n => {
+          state.armed = None;
+          true
+        }
+        _ => false,
+      }
+    };
+    if fire {
+      panic!("verif crash point {name} at height {height}");
+    }
+  }
+}
+
+/// C03 (group `insloc`): the explorer's view of one inscription, i.e. what
+/// `Index::inscription_info` (crate-private) reports: the charm bits (`Lost` is added at query
+/// time for an inscription at the null outpoint) and the satpoint.
+pub fn reported_inscription(
+  index: &Index,
+  id: InscriptionId,
+) -> Result<Option<(u16, SatPoint)>> {
+  Ok(
+    index
+      .inscription_info(subcommand::server::query::Inscription::Id(id), None)?
+      .map(|(info, _, _)| {
+        (
+          info.charms.iter().fold(0, |acc, charm| acc | charm.flag()),
+          info.satpoint,
+        )
+      }),
+  )
+}
